@@ -260,3 +260,51 @@ def c05_finite(d):
                                "non_finite_outputs": int(bad.shape[0]), "scale_finite": bool(np.all(np.isfinite(sc)))},
                   "expected": "finite outputs and scale for finite inputs"}
   return {"status": "refuted", "observed": {"configurations_tried": tried}}
+
+
+@replayer("c05_linear")
+def c05_linear(d):
+  """quantized_linear(alpha='auto' / 'auto_po2'): the real quantizer on tensors of the witness' shape; evaluates the
+  violated clause (scale_pos, scale_group, scale_po2, code_range) on each."""
+  import tensorflow as tf
+  from qkeras import quantizers
+  w = d["witness"] or {}
+  rp = w.get("__replay__") or {}
+  bits, integer = max(2, int(w.get("bits", 4))), int(w.get("integer", 0))
+  kw = {"alpha": rp["kwargs"]["alpha"]}
+  if rp["kwargs"].get("scale_axis") is not None:
+    kw["scale_axis"] = int(rp["kwargs"]["scale_axis"])
+  shape = tuple(rp["shape"])
+  clause = d["clause"]
+  if clause not in ("scale_pos", "scale_group", "scale_po2", "code_range"):
+    return {"status": "unsupported", "detail": "clause %s has no native evaluation" % clause}
+  x = w.get("x")
+  x = None if x is None else float(Fraction(str(x)))
+  rng = np.random.default_rng(0)
+  top = 2 ** (bits - 1) - 1
+  rank = len(shape)
+  tried = 0
+  for t in _tensors(shape, x, rng):
+    q = quantizers.quantized_linear(bits, integer, 1, 1, **kw)
+    out = np.array(q(tf.constant(t)), dtype=np.float64)
+    scale = np.array(q.quantization_scale, dtype=np.float64)
+    tried += 1
+    bad = None
+    if clause == "scale_pos" and not np.all(scale > 0):
+      bad = {"scale": scale.reshape(-1).tolist()[:6]}
+    if clause == "scale_group" and rank > 1:
+      axes = _group_axes(rank, kw.get("scale_axis"))
+      want_shape = tuple(1 if i in axes else e for i, e in enumerate(shape))
+      if tuple(scale.shape) != want_shape:
+        bad = {"scale_shape": list(scale.shape), "expected_shape": list(want_shape)}
+    if clause == "scale_po2" and not all(_is_po2(v) for v in scale.reshape(-1)):
+      bad = {"scale": scale.reshape(-1).tolist()[:6]}
+    if clause == "code_range":
+      sc = np.broadcast_to(scale, out.shape) if scale.size > 1 else np.full(out.shape, float(scale.reshape(-1)[0]))
+      if np.any(np.abs(out) > top * sc * (1 + 1e-6)):
+        i = int(np.argmax(np.abs(out) - top * sc))
+        bad = {"output": float(out.reshape(-1)[i]), "scale": float(sc.reshape(-1)[i]), "top_code": top}
+    if bad is not None:
+      bad.update({"bits": bits, "integer": integer, "tensor_kind_index": tried})
+      return {"status": "confirmed", "observed": bad, "expected": "clause %s" % clause}
+  return {"status": "refuted", "observed": {"tensors_tried": tried}}
